@@ -14,6 +14,7 @@ import (
 	"sort"
 	"strconv"
 	"strings"
+	stdsync "sync"
 	"testing"
 	"time"
 
@@ -74,17 +75,22 @@ type call struct {
 }
 
 type rec struct {
+	mu    stdsync.Mutex // only contended in the free-running race audit; never held across a scheduling point
 	clock int
 	calls []*call
 }
 
 func (r *rec) do(ledger, method string, fail bool) error {
+	r.mu.Lock()
 	r.clock++
 	c := &call{ledger: ledger, method: method, start: r.clock}
 	r.calls = append(r.calls, c)
+	r.mu.Unlock()
 	vsched.PointOp("ledger-call." + ledger) // completion order is a scheduler choice
+	r.mu.Lock()
 	r.clock++
 	c.end = r.clock
+	r.mu.Unlock()
 	if fail {
 		return fmt.Errorf("%s on %s failed", method, ledger)
 	}
@@ -97,7 +103,9 @@ type sfunder struct {
 	fail bool
 }
 
-func (f *sfunder) Fund(context.Context, channel.FundingReq) error { return f.r.do(f.name, "fund", f.fail) }
+func (f *sfunder) Fund(context.Context, channel.FundingReq) error {
+	return f.r.do(f.name, "fund", f.fail)
+}
 
 type sadj struct {
 	r    *rec
@@ -156,7 +164,13 @@ type observation struct {
 func exec(t *testing.T, ssc schedrun.Scenario, o vsched.Options) (*vsched.Sched, any) {
 	cfg := parse(ssc.Name)
 	obs := &observation{}
-	s := vsched.Run(t, o, func() {
+	s := vsched.Run(t, o, func() { body(cfg, obs) })
+	return s, obs
+}
+
+// body is one run of a configuration (under the scheduler, or free-running in the race audit).
+func body(cfg config, obs *observation) {
+	{
 		r := &rec{}
 		var as []channel.Asset
 		var bals channel.Balances
@@ -201,10 +215,50 @@ func exec(t *testing.T, ssc schedrun.Scenario, o vsched.Options) (*vsched.Sched,
 				obs.err = a.Progress(ctx, channel.ProgressReq{AdjudicatorReq: req, NewState: st})
 			}
 		}
-		vsched.Sleep(time.Second) // let sub-calls that outlive an early error return finish
-		obs.calls = r.calls
-	})
-	return s, obs
+		if vsched.Active() {
+			vsched.Sleep(time.Second) // let sub-calls that outlive an early error return finish
+		} else {
+			time.Sleep(200 * time.Microsecond)
+		}
+		r.mu.Lock()
+		obs.calls = append([]*call{}, r.calls...)
+		r.mu.Unlock()
+	}
+}
+
+// TestRace is the free-running race audit (DESIGN.md 2.3 (b)): every configuration of the quick
+// family runs a few times with real goroutines under Go's race detector; reports become
+// violations C20:data-race:<functions>. Nothing else is judged here.
+func TestRace(t *testing.T) {
+	res := report.New("C20", "multi-race")
+	defer res.Write() //nolint:errcheck
+	iters := 3
+	if res.Thorough() {
+		iters = 30
+	}
+	scs := scenarios(res)
+	var wg stdsync.WaitGroup
+	next := make(chan string)
+	for k := 0; k < 8; k++ {
+		wg.Add(1)
+		go func() {
+			defer wg.Done()
+			for n := range next {
+				for i := 0; i < iters; i++ {
+					body(parse(n), &observation{})
+				}
+			}
+		}()
+	}
+	for _, sc := range scs {
+		next <- sc.Name
+		res.Count("evaluations", int64(iters))
+		res.Count("scenarios", 1)
+	}
+	close(next)
+	wg.Wait()
+	res.Counters["distinct_nontrivial"] = res.Counters["scenarios"]
+	res.Note("race audit: %d free-running iterations of each of %d configurations under -race", iters, len(scs))
 }
 
 func check(ssc schedrun.Scenario, s *vsched.Sched, o any) []schedrun.Verdict {
@@ -390,10 +444,11 @@ func scenarios(res *report.Result) []schedrun.Scenario {
 	}
 	// wide family: all six ledgers registered / one (first, last) missing, none / one (first, last)
 	// failing; the sub-calls overlap under the default schedule already (every call has a
-	// scheduling point between its start and its return), preemption bound 1 (2 in thorough)
-	wb := 1
+	// scheduling point between its start and its return, and which of the waiting threads runs
+	// next is a free choice), preemption bound 0 (1 in thorough)
+	wb := 0
 	if res.Thorough() {
-		wb = 2
+		wb = 1
 	}
 	all := uint(0)
 	for _, a := range wide {
